@@ -488,7 +488,8 @@ def judge(rep, behs, refs, wd, n_fresh, n_batches):
 
     for key in order_of:
         clause, sig = key
-        members = groups[key]
+        # shortest process prefix first
+        members = sorted(groups[key], key=lambda m: (0 if m[0][0] == 'f' else where[int(m[0][1:])][1], m[0]))
         # representative (it becomes the replay file): a history that fails in a process of its own if there
         # is one (observed so, or re-executed alone now), else the first one together with its process prefix
         lead = None
@@ -500,7 +501,7 @@ def judge(rep, behs, refs, wd, n_fresh, n_batches):
                 lead_tid = tid
                 break
         if lead is None:
-            for tid, evs in members[:3]:
+            for tid, evs in members[:5]:
                 i = int(tid[1:])
                 alone = run_children([{'items': [{'tid': 'm0', 'hist': behs[i]['hist']}], 'refs': refs}], wd)
                 va, _, _ = validate([('m0', alone['m0'])], tag='c17m')
